@@ -49,11 +49,12 @@ RT = "http://schemas.openxmlformats.org/officeDocument/2006/relationships/"
 FIELDS = ("left", "top", "width", "height")
 LATENT = ("dt", "ftr", "sldNum")
 NOTES_CLONED = ("sldImg", "body", "sldNum")
-LAYOUT_TYPES = ["title", "ctrTitle", "subTitle", "body", None, "obj", "chart", "tbl", "clipArt", "dgm", "media", "pic", "dt", "ftr", "sldNum", "hdr"]
-# (sldImg is not generated on slide layouts: it exists on notes pages only, python-pptx has no base name for it on a slide -
-# add_slide raises KeyError - and no authoring application puts one there; hdr is, with its own full a:xfrm, because
-# python-pptx has no master type for it to inherit from)
-NO_MASTER_COUNTERPART = ("hdr",)
+LAYOUT_TYPES = ["title", "ctrTitle", "subTitle", "body", None, "obj", "chart", "tbl", "clipArt", "dgm", "media", "pic", "dt", "ftr", "sldNum", "hdr", "sldImg"]
+# (hdr and sldImg are the notes-page types: schema-valid on a slide layout all the same.  They used to be kept away - sldImg not
+# generated, hdr only with a full a:xfrm of its own - because add_slide / the geometry readers raised KeyError for them: that was
+# the defect repaired in /repo 8b329174 ("placeholder types hdr and sldImg"), not a reason to narrow the generator.  A slide master
+# has no counterpart for them: what the layout does not give reads None.)
+NO_MASTER_COUNTERPART = ()
 MASTER_OF = dict({t: "body" for t in ("body", "subTitle", "obj", "chart", "tbl", "clipArt", "dgm", "media", "pic")}, title="title", ctrTitle="title", dt="dt", ftr="ftr", sldNum="sldNum")
 BASENAME = {  # documented in _BaseShapes.ph_basename; only used to provoke name collisions
     "clipArt": "ClipArt Placeholder", "body": "Text Placeholder", "ctrTitle": "Title", "chart": "Chart Placeholder", "media": "Media Placeholder",
